@@ -167,10 +167,15 @@ def confirm_timeouts(cases, results, factor=8, jobs=4):
     if not idx:
         return 0
     if len(idx) > 40:
-        # too many to re-run at leisure: confirm a sample; the rest keep their verdict only if the sample persists
-        keep = idx[:40]
-        log("[confirm_timeouts] %d timeouts; confirming 40 of them" % len(idx))
+        # too many to re-run at leisure (and too many to be load): confirm a spread sample with a shorter allowance; the
+        # rest keep their verdict
+        step = len(idx) // 12
+        keep = idx[::step][:12]
+        log("[confirm_timeouts] %d timeouts; confirming %d of them" % (len(idx), len(keep)))
         idx = keep
+        factor, jobs = min(factor, 4), max(jobs, 6)
+    elif len(idx) > 8:
+        factor, jobs = min(factor, 5), max(jobs, 8)
     again = []
     for i in idx:
         c = dict(cases[i])
